@@ -70,8 +70,8 @@ inductive TokKind where
   deriving DecidableEq, Repr
 
 /-- `_classify_token` -/
-def classifyToken (t : String) : TokKind :=
-  if Py.containsSub t "://" then .url
+def classifyToken (t : String) (isPath : Bool := false) : TokKind :=
+  if Py.containsSub t "://" && !isPath then .url
   else if Py.startsWith t "$" then .variable
   else if Py.startsWith t "/" then .absolute
   else if t == "~" || Py.startsWith t "~/" then .home
@@ -88,7 +88,7 @@ def resolveAbs (env : PathEnv) (p : String) : String := env.resolve (purePath p)
 
 /-- `_expand_token` -/
 def expandToken (env : PathEnv) (token cwd : String) (forcePath : Bool) : String :=
-  match classifyToken token with
+  match classifyToken token forcePath with
   | .url => token
   | .variable => token
   | .absolute => resolveAbs env token
